@@ -33,6 +33,34 @@ CHUNKSIZE = 65536
 
 
 # ---------------------------------------------------------------------------- set-up
+def mux_tail(kind, serial, pages, fserial):
+    """zoo link `kind` with a foreign logical stream multiplexed into it: foreign BOS right after ours, foreign data pages
+    interleaved, and the foreign EOS page AFTER our EOS page (zoo.multiplexed puts it before).  Returns (path, meta)."""
+    p, m = zoo.link(kind, serial, pages)
+    pg = vlib.parse_pages(open(p, 'rb').read())
+
+    def fpage(seq, flags, body):
+        lac, n = [], len(body)
+        while n >= 255:
+            lac.append(255)
+            n -= 255
+        lac.append(n)
+        return vlib.Page(flags, seq * 1000, fserial, seq, lac, body)
+    out = [pg[0], fpage(0, 2, b'fishead\0' + bytes(56))]
+    fseq = 1
+    for i, q in enumerate(pg[1:]):
+        if i % 2 == 1:
+            out.append(fpage(fseq, 0, bytes([fseq & 255]) * (300 + 37 * fseq)))
+            fseq += 1
+        out.append(q)
+    out.append(fpage(fseq, 4, b'end'))
+    blob = b''.join(x.encode() for x in out)
+    path = vlib.write_file('c12_muxtail_%s_%d_%s.ogg' % (kind, serial, pages), blob)
+    m = dict(m)
+    m.update({'bytes': len(blob), 'file': path, 'foreign': fserial})
+    return path, m
+
+
 def load(tier):
     allf = zoo.standard_files()
     files = {'F1': allf['F1'], 'F2': allf['F2']}
@@ -41,6 +69,11 @@ def load(tier):
         files['F6'] = allf['F6']       # foreign logical stream multiplexed into the first link
     # one large chain: links > 64 KiB so that open's backward scans and bisection really hop
     files['BIG'] = zoo.make_chain('c12_big', ['M', 'A', 'N'], pages='natural', serial0=1200)
+    # chains whose LAST link is multiplexed with a foreign logical stream that owns the physically last page of the
+    # file: only then does open's "find the last Vorbis page of this link" loop (_bisect_forward_serialno, single-link
+    # branch) run its backward search at recursion depth >= 1, i.e. while the link tables are still one entry long
+    files['MT2'] = vlib.chain('c12_mt2', [zoo.link('A', 1301, '3'), mux_tail('B', 1302, '3', 7301)])
+    files['MT3'] = vlib.chain('c12_mt3', [zoo.link('A', 1311, '4'), zoo.link('C', 1312, '2'), mux_tail('A', 1313, '3', 7302)])
     exe, listfile, models = seekgraph.load_models(files, 'asan')
     return exe, listfile, {m.name: m for m in models}
 
@@ -148,8 +181,8 @@ def scenarios(models, tier):
     S = []
     thorough = tier == 'thorough'
     small = ('F1', 'F2') + (('F2z', 'F6') if thorough else ())
-    for name in small + ('BIG',):
-        S.append(Scn('S1open', models[name], 's', [], name != 'BIG', 'open'))
+    for name in small + ('MT2', 'MT3', 'BIG'):
+        S.append(Scn('S1open', models[name], 's', [], name in small, 'open'))
     for name in small:
         fm = models[name]
         full = name in ('F1', 'F2')
@@ -225,7 +258,8 @@ def key_for(what, scn, faults, phase):
     if (what == 'timeout' and scn.mode == 's' and all(not per and k < scn.cum[0] for k, kind, per in faults) and any(kind == 'zero' for _, kind, _ in faults)):
         return 'open_oneshot_zero_read_never_returns'
     fk = '+'.join('%s%s' % (kind, '*' if per else '') for _, kind, per in faults)
-    return '%s:%s:fault_%s_during_%s:%s' % (what, scn.cls, fk, phase, 'chain' if scn.fm.nl > 1 else 'single')
+    shape = 'single' if scn.fm.nl == 1 else 'chain_last_link_multiplexed_tail' if scn.fm.links[-1].get('foreign') and scn.fm.pages[-1].serial == scn.fm.links[-1]['foreign'] else 'chain'
+    return '%s:%s:fault_%s_during_%s:%s' % (what, scn.cls, fk, phase, shape)
 
 
 # ---------------------------------------------------------------------------- the explorer
@@ -600,6 +634,12 @@ def run(tier):
     chk.guard(all(len(v) >= 8 for v in dev.rtargets.values()) and len(dev.rtargets) >= 2, '8 recovery targets per file')
     big = [s for s in scns if s.fm.name == 'BIG'][0]
     chk.guard(int(big.base.get('B', 0)) > CHUNKSIZE and big.fm.size > 2 * CHUNKSIZE, 'large chain: open performs seeks further than CHUNKSIZE back (bisection / chunked backward scan reached)')
+    for s in scns:
+        if s.fm.name in ('MT2', 'MT3'):
+            fm = s.fm
+            chk.guard(fm.nl >= 2 and fm.pages[-1].serial == fm.links[-1]['foreign'] and fm.pages[-1].serial != fm.links[-1]['serial']
+                      and int(s.base.get('N', -1)) == fm.L,
+                      '%s: chain of %d links, the physically last page belongs to the foreign stream of the last link, fault-free open reports the constructed length' % (fm.name, fm.nl))
     unk = [s.name for s in scns if len(s.pclass) != s.N]
     chk.guard(dev.cut or not unk, 'callback class (read/seek/tell) learned for every point of every scenario: %r' % (unk[:3],))
     return chk.finish()
